@@ -117,9 +117,13 @@ def workload(rng, tier):
     return cases
 
 
-def qml_string(s):
+def qml_string(s, spell=None):
+    """spell = (position, form): that character is written as an escape sequence (the string denoted stays the same)."""
     out = []
-    for c in s:
+    for i, c in enumerate(s):
+        if spell and i == spell[0] and ord(c) < 0x80:
+            out.append({"x": "\\x%02x", "u4": "\\u%04x", "ub2": "\\u{%02x}", "ub4": "\\u{%04x}", "ub3": "\\u{%03X}"}[spell[1]] % ord(c))
+            continue
         if c == "\\":
             out.append("\\\\")
         elif c == '"':
@@ -196,7 +200,9 @@ def run(tier, seed, replay=None):
         picks = cases
     jobs = []
     for i, (s, cls) in enumerate(picks):
-        lit = qml_string(s)
+        # a quarter of the colours have one character written as an escape sequence: the string is the same colour
+        spell = (rng.randrange(len(s)), rng.choice(("x", "u4", "ub2", "ub4", "ub3"))) if (s and i % 4 == 0 and ref_color(s) is not None) else None
+        lit = qml_string(s, spell)
         src = ("import qmluic.QtWidgets\nQColorDialog {\n currentColor: %s\n"
                " QGraphicsView { backgroundBrush: %s }\n"
                " QLabel { palette.window: %s; palette.disabled.text: %s }\n}\n" % (lit, lit, lit, lit))
